@@ -386,6 +386,7 @@ CLAIMED["C12"]["text"] += (" The cost line and `all` >= `any` are now also THEOR
 for _p in ("C01", "C02", "C03", "C04", "C05", "C10"):
     CLAIMED[_p]["text"] += (" The correspondence also replays histories on ONE input object (costs changed in place between calls) and "
         "builds its inputs under varying presentations (ancestors unnamed / all alike, multi-character family names, float inf).")
+CLAIMED["C12"]["text"] += (" The composed theorems also hold for every colouring of the input trees by safe words (Properties/C12Colour.lean) and the naming hypothesis is derived from label_internal (Properties/C12Names.lean: label, solve, write).")
 CLAIMED["C17"]["text"] += " Trees of every stream are named in four ways (unique / unnamed / all alike / two letters): names are not part of the definitions."
 
 
